@@ -539,6 +539,13 @@ func TestVerifReplay(t *testing.T) {
 	cmd.Env = env
 	out, _ := cmd.CombinedOutput()
 	s := string(out)
+	if os.Getenv("VERIF_FSLOG") != "" {
+		for _, l := range strings.Split(s, "\n") {
+			if strings.HasPrefix(l, "FSLOG") {
+				fmt.Fprintln(os.Stderr, l)
+			}
+		}
+	}
 	if i := strings.Index(s, "REPLAY-RESULT: "); i >= 0 {
 		line := s[i+len("REPLAY-RESULT: "):]
 		if j := strings.IndexByte(line, '\n'); j >= 0 {
